@@ -11,6 +11,7 @@ import (
 	"math/rand"
 	"os"
 	"path/filepath"
+	"runtime"
 	"sort"
 	"strings"
 	"sync"
@@ -55,6 +56,7 @@ type result struct {
 	Fired     bool   `json:"fired"`
 	Checks    int64  `json:"checks"`
 	Outcome   string `json:"outcome"`
+	Leftover  int    `json:"leftover"` // phases after which goroutines of stopped nodes were still alive after 5 s
 }
 
 func (r *result) v(sig, format string, a ...any) {
@@ -99,6 +101,14 @@ func (w *world) start(mask int, servers []string, serve bool) (map[string]*clust
 		nodes[n] = c
 	}
 	return nodes, nil
+}
+
+// syncWorkersAlive reports whether a goroutine of some node is still inside the
+// start-up synchronisation (sending a shard file or collection records).
+func syncWorkersAlive() bool {
+	buf := make([]byte, 1<<20)
+	dump := string(buf[:runtime.Stack(buf, true)])
+	return strings.Contains(dump, "cluster.(*ClusterNode).sendShardFile") || strings.Contains(dump, "cluster.(*ClusterNode).syncShards") || strings.Contains(dump, "cluster.(*ClusterNode).syncUserCollections")
 }
 
 func stop(nodes map[string]*cluster.ClusterNode) {
@@ -250,7 +260,21 @@ func worker(raw json.RawMessage) (json.RawMessage, error) {
 			res.v("restart-failed", "%v", err)
 			return nil
 		}
-		defer stop(nodes)
+		defer func() {
+			stop(nodes)
+			// Sync returns on the first error while its other per-destination workers
+			// are still sending.  In production that error is fatal for the process, so
+			// nothing of it survives into the next start; here the "dead" node's
+			// senders must be gone before the next phase starts, or they would race
+			// with it (remove a source directory the next Sync is reading).
+			deadline := time.Now().Add(10 * time.Second)
+			for syncWorkersAlive() && time.Now().Before(deadline) {
+				time.Sleep(time.Millisecond)
+			}
+			if syncWorkersAlive() {
+				res.Leftover++
+			}
+		}()
 		xfer := 0
 		var hookMu sync.Mutex
 		cluster.VerifSendShardHook = nil
@@ -568,6 +592,12 @@ func master(cfg *harness.Config, rep *harness.Report) {
 		}
 		if res.Transfers > 0 {
 			moved++
+		}
+		if res.Leftover > 0 {
+			// goroutines of a stopped node outlived their phase: what this world reports
+			// may be their interference, not the code's behaviour
+			rep.NotExhaustive(fmt.Sprintf("world %+v: goroutines of a stopped node were still alive 5 s after its phase (result not used)", j))
+			continue
 		}
 		for _, v := range res.Viols {
 			rep.Violate(harness.Violation{Sig: v.Sig, Detail: fmt.Sprintf("[old %v -> new %v, seed %d, sync order %s, fault: transfer %d chunk %d (corrupt=%v), torn %d, big file %d] %s", members(j.Old), members(j.New), j.Seed, j.Order, j.FailXfer, j.FailChunk, j.Corrupt, j.Torn, j.BigFile, v.Detail), Replay: j})
